@@ -560,6 +560,9 @@ func (r *rewriter) rewriteFile() {
 				case "After", "AfterFunc", "NewTimer", "NewTicker", "Tick":
 					r.unsupported(x, full+" (timers are not simulated)")
 				}
+			case path == "runtime" && (x.Sel.Name == "GOMAXPROCS" || x.Sel.Name == "NumCPU" || x.Sel.Name == "Gosched" || x.Sel.Name == "NumGoroutine"):
+				x.X = ast.NewIdent("simrt")
+				r.usedSimrt = true
 			case unsupportedPkgs[path]:
 				r.unsupported(x, full+" (package outside the simulator's control)")
 			}
@@ -1229,7 +1232,15 @@ func (r *rewriter) expr(e ast.Expr, mode int) ast.Expr {
 					// method call on a struct VALUE that lives in a field or a written package variable
 					// (e.g. a shared strings.Builder / bytes.Buffer scratch): the callee is not instrumented,
 					// so record the call itself as a read (value receiver) or write (pointer receiver) of it
-					if !isSyncType(baseT) && r.addressable(orig) && r.sharedBase(orig) {
+					// ... but only for types defined OUTSIDE the library: the library's own methods are
+					// instrumented themselves (their field accesses are tracked, their locks give the ordering);
+					// treating `memo.load(k)` on a mutex-protected library struct as a write would be a false race
+					foreign := false
+					if fn, ok := sel.Obj().(*types.Func); ok && fn.Pkg() != nil {
+						pp := fn.Pkg().Path()
+						foreign = pp != modPath && !strings.HasPrefix(pp, modPath+"/")
+					}
+					if foreign && !isSyncType(baseT) && r.addressable(orig) && r.sharedBase(orig) {
 						ptrRecv := false
 						if fn, ok := sel.Obj().(*types.Func); ok {
 							if sig, ok := fn.Type().(*types.Signature); ok && sig.Recv() != nil {
